@@ -573,7 +573,48 @@ func installProbes(in *Interp, p *Pkg) {
 	defFn(p, "fail", 1, -1, func(in *Interp, a []*V) (*V, *Err) {
 		return nil, in.mkerr(a[0].S, "host-fail", a[1:]...)
 	})
-	for _, n := range []string{"probe", "panic", "nilmap", "capture", "fail"} {
+	// host functions bound directly as handlers (rt: verif:hh-*)
+	hostHandler := func(in *Interp, tag string, a []*V) {
+		if n := len(in.CondStack); n > 0 {
+			in.Captured = append(in.Captured, in.CondStack[n-1])
+		} else {
+			in.Captured = append(in.Captured, nil)
+		}
+		pr := Probe{Tag: tag}
+		for _, v := range a {
+			pr.Vals = append(pr.Vals, v.ToTree())
+		}
+		in.Trace = append(in.Trace, pr)
+	}
+	defFn(p, "hh-value", 1, -1, func(in *Interp, a []*V) (*V, *Err) {
+		hostHandler(in, "hh-value", a)
+		return QList(append([]*V{{K: KSym, S: "host-handled"}}, a...)), nil
+	})
+	defFn(p, "hh-fail", 1, -1, func(in *Interp, a []*V) (*V, *Err) {
+		hostHandler(in, "hh-fail", a)
+		return nil, in.mkerr("hh-failed", "host-fail", a[0])
+	})
+	defFn(p, "hh-panic", 1, -1, func(in *Interp, a []*V) (*V, *Err) {
+		hostHandler(in, "hh-panic", a)
+		e := in.mkerr("internal-panic", "host-panic", &V{K: KOpaque})
+		e.Panic = true
+		return nil, e
+	})
+	defFn(p, "hh-call", 1, -1, func(in *Interp, a []*V) (*V, *Err) {
+		hostHandler(in, "hh-call", a)
+		if in.Callback == nil {
+			return nil, in.mkerr("hh-no-callback", "host-fail", a[0])
+		}
+		return in.call(in.Callback, a...)
+	})
+	defFn(p, "set-callback", 1, 1, func(in *Interp, a []*V) (*V, *Err) {
+		if a[0].K != KFun {
+			return nil, in.mkerr("set-callback-not-a-function", "host-fail", a[0])
+		}
+		in.Callback = a[0]
+		return Nil(), nil
+	})
+	for _, n := range []string{"probe", "panic", "nilmap", "capture", "fail", "hh-value", "hh-fail", "hh-panic", "hh-call", "set-callback"} {
 		p.Syms[n].Fn.Pkg = "verif"
 	}
 }
